@@ -123,6 +123,20 @@ def generate(rng, tier, seed):
                     if not r.ok or r.value != exp:
                         c.fail(f"xor({data.hex()}, {key.hex()}) = {r.value.hex() if r.ok else r.err}, expected {exp.hex()}")
                     yield c
+    # large buffers with shorter, equal and longer masks (an implementation that switches method above some size)
+    for n in (65535, 65536, 65537, 100000, 1 << 20):
+        data = bytes(rng.getrandbits(8) for _ in range(256)) * (n // 256 + 1)
+        data = data[:n]
+        for m in (0, 8, n - 1, n, n + 5):
+            key = (bytes(rng.getrandbits(8) for _ in range(251)) * (m // 251 + 1))[:m]
+            c = Case("xor:large", {"len_data": n, "len_key": m})
+            c.key = ("xl", n, m)
+            import core as _c
+            r = _c.call_impl("tools.xor", (data, key))
+            exp = bytes(a ^ b for a, b in zip(data, key)) + data[len(key):]
+            if not r.ok or r.value != exp[:n]:
+                c.fail(f"xor of {n} bytes with a mask of {m} bytes: " + (f"result of {len(r.value)} bytes differs" if r.ok else f"raised {r.err}"))
+            yield c
     # the same object as data and mask (the result is all zero, the object is left alone)
     for n in (0, 1, 8, 16, 25):
         for mk in (bytes, bytearray):
